@@ -428,7 +428,9 @@ where
             scratch.available()
         );
 
-        let chunk_size: usize = bit_count.div_ceil(threads);
+        // `chunks_mut` panics on a chunk size of 0: an empty bit range spawns no worker
+        // (the loops below then zero every bit).
+        let chunk_size: usize = bit_count.div_ceil(threads).max(1);
 
         let (mut scratches, _) = scratch.split_mut(threads, scratch_thread_size);
 
